@@ -21,7 +21,7 @@ theorem readSlice8_le (old : Bytes) (len : Int) (r : Reader) : r.Le (readSlice8 
     | mk res r' =>
       cases res with
       | error e => rw [(checkLength_err hc).1]; exact Reader.Le.refl _
-      | ok u => rw [(checkLength_ok hc).1]; exact readFull_le _ _
+      | ok u => rw [(checkLength_ok_inv hc).1]; exact readFull_le _ _
 
 theorem arrOverflow_le (e : Ty) (r : Reader) : r.Le (arrOverflow e r).2 := by
   unfold arrOverflow
@@ -130,7 +130,7 @@ theorem dec_pos (env : Env) : ∀ f : Nat,
                       | error er =>
                         rw [(checkLength_err hc).1]; exact StepOK.of_err (p1.trans hl)
                       | ok u =>
-                        rw [(checkLength_ok hc).1]
+                        rw [(checkLength_ok_inv hc).1]
                         exact StepOK.of_lt_le hlt (hl.trans (ihE _ _ _ _))
               · split
                 · split
@@ -216,7 +216,7 @@ theorem dec_pos (env : Env) : ∀ f : Nat,
                     | error er =>
                       rw [(checkLength_err hc).1]; exact StepOK.of_err (p1.trans hl)
                     | ok u =>
-                      rw [(checkLength_ok hc).1]
+                      rw [(checkLength_ok_inv hc).1]
                       exact StepOK.of_lt_le hlt (hl.trans (ihP _ _ _ _ _))
       | struct name =>
         rw [Total.decVar_struct]
